@@ -23,7 +23,7 @@ RULE = ("one run = one export stream: records for 1-6 cards fragmented by contes
         "non-trivial = some identifier occurs more than once with overlapping contests or differing flags; distinct = "
         "distinct event-log digest")
 ASSUMPTIONS = [
-    "flags in the stream are Python booleans; tally pools are strings or None",
+    "flags in the stream are Python booleans; tally pools are strings (including the empty string), integers (including 0) or None",
     "RAIRE rankings are duplicate-free; the file is written by the simulator exactly in the documented layout",
 ]
 COMPONENTS = {
@@ -31,7 +31,8 @@ COMPONENTS = {
     "stub": ["exporter (fragmentation, repetition, interleaving)", "file system (per-run scratch directory)"],
 }
 PROBES = ["tally pool conflict", "later record overrides contest", "phantom and real record merged", "pool flag only on later record",
-          "three or more records for one card", "raire multi-contest card", "raire empty ranking", "no duplicates at all"]
+          "three or more records for one card", "raire multi-contest card", "raire empty ranking", "no duplicates at all",
+          "falsy tally pool label"]
 
 
 def generate(rng, tier):
@@ -54,7 +55,7 @@ def generate(rng, tier):
     ncards = rng.randint(1, 6)
     ids = [f"card{j}" for j in range(ncards)]
     cons = [f"K{j}" for j in range(rng.randint(1, 4))]
-    pools = [None, None, "p1", "p2"]
+    pools = [None, None, "p1", "p2", 0, ""]  # a batch index 0 or an empty label is a label, not "no pool"
     conflict = rng.chance(0.25)
     card_pool = {i: rng.pick(pools) for i in ids}
     recs = []
@@ -65,7 +66,7 @@ def generate(rng, tier):
             votes[c] = {f"{c}a": rng.pick([1, 2, True, False, 0]), **({f"{c}b": rng.pick([1, 2, 3])} if rng.chance(0.5) else {})}
         tp = card_pool[i] if rng.chance(0.7) else None
         if conflict and rng.chance(0.2):
-            tp = rng.pick(["p1", "p2", "p3"])
+            tp = rng.pick(["p1", "p2", "p3", 0, ""])
         recs.append({"id": i, "votes": votes, "phantom": rng.chance(0.3), "pool": rng.chance(0.3), "tally_pool": tp})
     return {"kind": "merge", "records": recs}
 
@@ -136,6 +137,8 @@ def execute(case):
             seen.setdefault(r["id"], r)
         if ref is None:
             out.probe("tally pool conflict")
+        if any(r["tally_pool"] is not None and not r["tally_pool"] for r in recs):
+            out.probe("falsy tally pool label")
         out.units["records"] += len(recs)
         cvrs = W.mk_cvrs(ns, recs)
         try:
